@@ -347,6 +347,8 @@ class G:
                 return self.if_stmt(depth, False, False)
             return self.switch_stmt(depth, False, False)
         deep = depth >= self.max_depth or self.budget <= 0
+        if self.macro_names and self.b(1, 6):
+            return self.macro_call()
         k = self.i(0, 29)
         if k < 9 or (deep and k < 21):
             return self.plain_simple()
